@@ -115,22 +115,9 @@ def r2(R2, cfg, F):
     if not b:
         R2.missing(cfg, 'asset::load_and_record')
         return
-    rc = [c for c in b.calls() if c.callee and c.callee.best == REC + 'record']
-    ok = len(rc) == 1
-    why = 'shape: exactly one records::record call expected'
-    if ok:
-        rc = rc[0]
-        me = 'call@bb%d' % rc.bb
-        g = common.guards_of(b, rc.bb)
-        tests = sorted((lab != 'sw:0', t[0], tuple(deep(b, t[1]) or ())) for _, _, lab, t in g)
-        roots = {}
-        for c in b.calls():
-            if c.callee:
-                roots['call@bb%d' % c.bb] = c.callee.best
-        names = sorted((truth, kind, roots.get(ap[0], ap[0]) if ap else None) for truth, kind, ap in tests)
-        ok = names == [(True, 'discr', "anycache::AnyCache::<'a>::reloader"), (True, 'val', 'key::Type::is_hot_reloaded')] \
-            and common.inevitable(b, g, rc.bb) and deep(b, rc.args[0]) == [[k for k, v in roots.items() if v.endswith('::reloader')][0], 'as:Some', '0']
-        why = 'the load is not recorded exactly when the type is hot-reloaded and the cache has a reloader (conditions found: %s)' % names
+    ok, why, rc = common.records_iff_hot_reloaded_and_reloader(b, REC + 'record')
+    if True:
+        me = 'call@bb%d' % rc.bb if rc is not None else '?'
         if ok:
             # every returned pair is (entry of this record, Some(deps of this record)) or (plain load, None)
             rets = [s for _, _, s in b.assigns() if s['place']['l'] == 0 and not s['place']['p']]
@@ -260,25 +247,56 @@ def r3(R3, cfg, F):
         return
     after = b.reachable([push[0].target]) if push[0].target is not None else set()
     ok = not any(r.bb in after for r in rec) and all(push[0].bb in b.reachable([r.target]) for r in rec if r.target is not None)
-    # recursion goes to the *reverse* dependencies of the node of the current key
-    it = [c for c in b.calls() if c.callee and c.callee.name == 'iter' and 'HashSet' in c.callee.best]
-    okr = len(it) == 1 and 'rdeps' in (b.access_path(b.call_roots(it[0].args[0])[0].args[0]) if b.call_roots(it[0].args[0]) else b.access_path(it[0].args[0]) or [])
+    # recursion goes to the *reverse* dependencies of the node of the current key: the iterator whose elements are visited
+    # is made from `node.rdeps` (by .iter(), `&*rdeps`, into_iter ..)
+    pt_it = common.make_pt(r'IntoIterator.*::into_iter$', r'::iter$', r'Deref>::deref$')
+    nx = [c for c in b.calls() if c.callee and c.callee.name == 'next' and c.callee.trait == 'std::iter::Iterator']
+    okr = False
+    for n in nx:
+        cur = n.args[0]
+        for _ in range(5):
+            if 'rdeps' in (common.deep_path(b, cur) or []):
+                okr = True
+                break
+            r = b.call_roots(cur)
+            if len(r) != 1 or not r[0].callee or r[0].callee.name not in ('iter', 'into_iter', 'deref', 'deref_mut') or not r[0].args:
+                break
+            cur = r[0].args[0]
     R3.check(ok and okr, cfg, b.path, 'post-order-push-over-rdeps', 'visit must recurse into the reverse dependencies first and push the key afterwards (post-order)', push[0].loc())
     ib = F.body(D + 'TopologicalSort::into_iter')
-    if not ib:
-        R3.missing(cfg, 'TopologicalSort::into_iter')
+    ts = F.body(D + 'DepsGraph::topological_sort_from')
+    if not ib or not ts:
+        R3.missing(cfg, 'TopologicalSort::into_iter / DepsGraph::topological_sort_from')
         return
+    # with a post-order DFS over reverse dependencies the list must be reversed exactly once between the DFS and its
+    # consumer: `.rev()` where it is consumed, or `.reverse()` where it is produced
     rev = [c for c in ib.calls() if c.callee and c.callee.defp == 'std::iter::Iterator::rev']
     ii = [c for c in ib.calls() if c.callee and c.callee.name == 'into_iter']
     adapt = [c.callee.name for c in ib.calls() if c.callee and c.callee.trait == 'std::iter::Iterator' and c.callee.name != 'rev']
-    ok = len(rev) == 1 and len(ii) == 1 and not adapt and rev[0].dest['l'] == 0 and ib.access_path(rev[0].args[0]) == ['call@bb%d' % ii[0].bb] \
-        and ib.access_path(ii[0].args[0]) == ['arg1', '0']
-    R3.check(ok, cfg, ib.path, 'consumer-reverses-post-order', 'with a post-order DFS over reverse dependencies the list must be consumed reversed (and only reversed) so that dependencies come first', ib.loc())
-    ts = F.body(D + 'DepsGraph::topological_sort_from')
-    if ts:
-        ag = [s for _, _, s in ts.assigns() if s['place']['l'] == 0 and s['rv']['k'] == 'aggregate' and s['rv'].get('adt') == D + 'TopologicalSort']
-        ok = len(ag) == 1 and (ts.access_path(ag[0]['rv']['ops'][0]) or [])[-1:] == ['list']
-        R3.check(ok, cfg, ts.path, 'returns-the-visit-order', 'topological_sort_from must return the list filled by visit', ts.loc())
+    okc = len(ii) == 1 and not adapt and len(rev) <= 1 and ib.access_path(ii[0].args[0]) == ['arg1', '0']
+    if okc and rev:
+        okc = rev[0].dest['l'] == 0 and ib.access_path(rev[0].args[0]) == ['call@bb%d' % ii[0].bb]
+    elif okc:
+        okc = ii[0].dest['l'] == 0
+    ag = [s for _, _, s in ts.assigns() if s['place']['l'] == 0 and s['rv']['k'] == 'aggregate' and s['rv'].get('adt') == D + 'TopologicalSort']
+    okp = len(ag) == 1
+    revp = [c for c in ts.calls() if c.callee and re.search(r'(slice::<impl \[T\]>|Vec::<T.*>)::reverse$', c.callee.best)]
+    if okp:
+        lp = common.deep_path(ts, ag[0]['rv']['ops'][0]) or []
+        okp = lp[-1:] == ['list'] or 'list' in lp
+        # a reversal in the producer must act on that list, once, after the visits
+        vis = [c for c in ts.calls() if c.callee and c.callee.best == b.path]
+        for r in revp:
+            roots = ts.call_roots(r.args[0], passthrough=common.make_pt(r'DerefMut>::deref_mut$'))
+            rp = [common.deep_path(ts, x.args[0]) or [] for x in roots if x.args] + [common.deep_path(ts, r.args[0]) or []]
+            lists = [a for a in [ag[0]['rv']['ops'][0]] if True]
+            same = any('list' in x for x in rp) or bool(ts.origins(r.args[0], passthrough=common.make_pt(r'DerefMut>::deref_mut$')) & ts.origins(lists[0]))
+            okp = okp and same and all(v.bb not in ts.reachable([r.target]) for v in vis)
+    n_rev = len(rev) + len(revp)
+    R3.check(okc and okp and n_rev == 1, cfg, ib.path, 'consumer-reverses-post-order',
+             'with a post-order DFS over reverse dependencies the list must be reversed exactly once (by the consumer\'s .rev() or by a .reverse() '
+             'after the visits) so that dependencies come first; found %d reversal(s)' % n_rev, ib.loc())
+    R3.check(okp, cfg, ts.path, 'returns-the-visit-order', 'topological_sort_from must return the list filled by visit', ts.loc())
 
 
 def r4(R4, cfg, F):
@@ -506,18 +524,25 @@ def r7(R7, cfg, F):
     # the closure: contains(entry) -> to_reload.insert(entry) on every path; then update_if_static
     ct = [c for c in cl.calls() if c.callee and c.callee.best == 'hot_reloading::dependencies::DepsGraph::contains']
     ins = [c for c in cl.calls() if c.callee and c.callee.name == 'insert' and 'HashSet' in c.callee.best]
-    ok = len(ct) == 1 and len(ins) == 1 and cl.origins(ct[0].args[1]) == {('arg', 2)} and cl.origins(ins[0].args[1]) == {('arg', 2)} \
-        and cl.origins(ct[0].args[0]) == {('upvar', 1)} and cl.origins(ins[0].args[0], passthrough=pt_deref) == {('upvar', 0)}
+    ok = len(ct) == 1 and len(ins) == 1 and cl.origins(ct[0].args[1]) == {('arg', 2)} and cl.origins(ins[0].args[1]) == {('arg', 2)}
     if ok:
-        sw = [bb for bb, t_ in cl.terms() if t_['k'] == 'switch' and cl.access_path(t_['discr']) == ['call@bb%d' % ct[0].bb]]
-        true_t = [d for d, lab in cl.edges(sw[0]) if lab != 'sw:0'] if len(sw) == 1 else []
-        ok = len(true_t) == 1 and not (cl.reachable(true_t, removed_blocks=[ins[0].bb]) & set(cl.return_blocks()))
+        # the graph consulted and the set filled are this HotReloadingData's own `deps` and `to_reload` (captured field by
+        # field, or through `self`)
+        pg = common.strip_refs(common.through_closure(he, cl, ct[0].args[0]))
+        ps = common.strip_refs(common.through_closure(he, cl, ins[0].args[0]))
+        r = cl.call_roots(ins[0].args[0])
+        if ps[:1] != ['arg1'] and len(r) == 1 and r[0].args:
+            ps = common.strip_refs(common.through_closure(he, cl, r[0].args[0]))
+        ok = pg[:1] == ['arg1'] and 'deps' in pg and ps[:1] == ['arg1'] and 'to_reload' in ps
+    if ok:
+        g = [x for x in common.guards_of(cl, ins[0].bb) if x[3] == ('val', ['call@bb%d' % ct[0].bb]) and x[2] != 'sw:0']
+        ok = len(g) == 1 and common.inevitable(cl, g, ins[0].bb)
     R7.check(ok, cfg, cl.path, 'known-entry-always-queued', 'an event about an entry the graph knows must be inserted into the change set on every path', cl.loc())
     fc = [c for c in he.calls() if c.callee and c.callee.best == fe.path]
     us = [c for c in he.calls() if c.callee and c.callee.name == 'update_if_static']
     ok = len(fc) == 1 and len(us) == 1 and he.dominates(fc[0].bb, us[0].bb) and he.origins(fc[0].args[0]) == {('arg', 2)}
     if ok:
         lit = agg_direct(he, fc[0].args[1])
-        ok = lit is not None and lit['rv'].get('closure') == cl.path and ['to_reload' in (he.access_path(o) or []) for o in lit['rv']['ops']][:1] == [True] \
-            and 'deps' in (he.access_path(lit['rv']['ops'][1]) or [])
+        # (which fields of self the closure touches is decided above, through its captures)
+        ok = lit is not None and lit['rv'].get('closure') == cl.path
     R7.check(ok, cfg, he.path, 'queue-all-then-update', 'handle_events must queue every event of the batch into self.to_reload (testing self.deps), then run update_if_static', he.loc())
